@@ -72,3 +72,18 @@ func (p *Pegnet) IsReplayTransaction(tx *sql.Tx, entryHash *factom.Bytes32) (boo
 	// If there is any result, then we know the transaction has been executed before and thus a replay.
 	return rows.Next(), nil
 }
+
+// HasTransactionHistory returns true if the entry hash already has a row in
+// "pn_history_txbatch": the entry was seen in an earlier (or the same) block and is
+// either still waiting in holding, was rejected, or was executed.
+func (p *Pegnet) HasTransactionHistory(tx *sql.Tx, entryHash *factom.Bytes32) (bool, error) {
+	var one int
+	err := tx.QueryRow(`SELECT 1 FROM "pn_history_txbatch" WHERE "entry_hash" = ? LIMIT 1;`, entryHash[:]).Scan(&one)
+	if err == sql.ErrNoRows {
+		return false, nil
+	}
+	if err != nil {
+		return false, err
+	}
+	return true, nil
+}
